@@ -575,6 +575,8 @@ func main() {
 	c.Set("rule", fmt.Sprintf("eras Shelley..Dijkstra x every non-empty input subset of {k0-UTxO, k1-UTxO, script-locked UTxO, Byron UTxO of kb} x (Alonzo+) collateral {none,k0,k2,script-locked} x required signers {{}, {k0}, {k2}, {k1,k2}} x bootstrap witness {none, valid, other body, wrong chain code, bit flip} x every vkey-witness subset of size <= %d out of 12 candidates (V/B/W/F per key); thorough adds the full 4096-subset power set on a 24-context Conway grid; real decoder, all rules of the era run, only the signature family (by rule identity) is read; distinct = context; oracle = the five conditions of the property, both directions", maxW))
 	c.Assume("ed25519 (crypto/ed25519), blake2b, sha3-256, crc32 trusted; key seeds, chain code, txids are representatives derived from VERIF_SEED")
 	c.Assume("the Byron key is an ordinary ed25519 key plus a 32-byte chain code (signature verification only involves the 32-byte public key); Byron address attributes are the empty map")
+	// free-running -race pass: concurrent callers on their own inputs (state the library shares between calls)
+	c.RaceAudit("c28")
 	c.Finish()
 }
 
